@@ -28,7 +28,9 @@ RULE = ("case = seeded UFO over 1-3 of Latin/Cyrillic/Greek/Arabic/Hebrew/Devana
         "Katakana with same-script kerning, mark anchors on letters and combining marks, optional "
         "entry/exit anchors, GSUB-reachable alternates/ligatures x UFO library x languagesystem "
         "layout (all scripts, kerned scripts, extra languages | none, DFLT only, some scripts, no "
-        "DFLT); distinct = sha1 of the case description; non-trivial = the compiled GPOS has a "
+        "DFLT) x ~14 %: an encoded glyph of a script the font does not export, listed in "
+        "public.skipExportGlyphs, next to a kerned exported glyph whose Script_Extensions include "
+        "that script (control: the same glyph exported); distinct = sha1 of the case description; non-trivial = the compiled GPOS has a "
         "language system reaching kern/dist for which at least one mark/mkmk/curs/abvm/blwm "
         "lookup acting on that script's glyphs was required")
 ASSUMPTIONS = [
@@ -44,13 +46,26 @@ ASSUMPTIONS = [
 NONVACUITY = ["default_cases", "default_scripts_judged", "default_scripts_kern_and_mark",
               "default_multi_script_cases", "default_curs_required_scripts",
               "default_langsys_records_judged", "default_dist_scripts_judged",
-              "known_stratum_cases", "scripts_judged"]
+              "known_stratum_cases", "scripts_judged",
+              "foreign_skipped_cases", "foreign_exported_control"]
 
 POS_TAGS = ("mark", "mkmk", "curs", "abvm", "blwm")
 KERN_TAGS = ("kern", "dist")
 KNOWN_KEY = "script_only_registered_by_kern_writer"
 EXTRA_LANGS = {"latn": ["TRK", "ROM"], "arab": ["URD"], "cyrl": ["SRB"], "dev2": ["MAR"],
                "grek": ["PGR"], "hebr": ["IWR"], "kana": ["JAN"]}
+
+
+# glyphs whose code point belongs to several scripts (Script_Extensions), and encoded letters of
+# scripts the generated repertoires never export: a source glyph of such a script listed in
+# public.skipExportGlyphs is not part of the compiled font
+MULTI_SCX = [("comma-ar", 0x60C), ("tatweel-ar", 0x640), ("question-ar", 0x61F),
+             ("danda-deva", 0x964), ("hyphenoblique", 0x2E17), ("paragraphsep-geor", 0x10FB),
+             ("sidewayscomma", 0x2E43), ("ideographiccomma", 0x3001), ("dieresiscomb", 0x308),
+             ("tildecomb", 0x303), ("titlocomb-cy", 0x483), ("fullstop-arm", 0x589)]
+FOREIGN = [("alaph-syr", 0x710), ("haa-thaa", 0x780), ("na-nko", 0x7CA), ("ka-beng", 0x995),
+           ("ka-gujr", 0xA95), ("one-hani", 0x4E00), ("an-geor", 0x10D0), ("shei-copt", 0x3E2),
+           ("ayb-arm", 0x531), ("azu-glag", 0x2C00), ("an-perm", 0x10350), ("ka-thai", 0xE01)]
 
 
 def n_cases(tier):
@@ -117,6 +132,46 @@ def gen(rng, idx, tier):
             kerning.append([rng.choice(letters), rng.choice(neutral), -30])
         if len(neutral) >= 2 and rng.random() < 0.5:
             kerning.append([neutral[0], neutral[1], -15])
+    # ---- an encoded source glyph of a foreign script that is NOT exported, next to a kerned
+    # exported glyph whose script extensions include that foreign script
+    skip_export, foreign = [], None
+    if rng.random() < 0.14:
+        from fontTools import unicodedata as ftud
+        cands = []
+        for mname, mu in MULTI_SCX:
+            scx = set(ftud.script_extension(chr(mu)))
+            mine = [s for s in scripts if s in scx]
+            # (a glyph that belongs to scripts of both directions makes the kern writer fail;
+            # that is C05's listed mechanism, kept out of this check)
+            if not mine or mname in by_name or len({S.script_direction(x) for x in mine}) != 1:
+                continue
+            for fname, fu in FOREIGN:
+                fs = set(ftud.script_extension(chr(fu)))
+                if (len(fs) == 1 and fs <= scx and not (fs & set(scripts))
+                        and S.script_direction(next(iter(fs))) == S.script_direction(mine[0])):
+                    cands.append((mname, mu, fname, fu, mine))
+        if cands:
+            mname, mu, fname, fu, mine = rng.choice(cands)
+            is_mark = ftud.category(chr(mu)).startswith("M")
+            mg = S._spec(rng, mname, [mu], mark=is_mark)
+            fg = S._spec(rng, fname, [fu])
+            glyphs.extend([mg, fg])
+            by_name[mname], by_name[fname] = mg, fg
+            desc[mname] = S.describe(mname, [mu], "common")
+            letters = [n for n, d in desc.items() if d["kind"] == "letter"
+                       and set(d["script"]) & set(mine) and not d["mark"]]
+            if letters:
+                pair = [rng.choice(letters), mname]
+                if rng.random() < 0.4:
+                    pair.reverse()
+                kerning.append(pair + [rng.choice([-40, -25, 30])])
+            skip_export = [fname]
+            foreign = {"multi": mname, "foreign": fname, "exported": rng.random() < 0.15}
+            if foreign["exported"]:
+                # control: the same glyph exported (and its script then has to be declared)
+                skip_export = []
+                desc[fname] = S.describe(fname, [fu], "letter")
+                scripts = scripts + [ftud.script(chr(fu))]
     # ---- languagesystem layout
     # scripts that really take part in kerning (a double-encoded glyph brings its second script)
     kglyphs = set()
@@ -159,9 +214,11 @@ def gen(rng, idx, tier):
         "lib": rng.choice(["defcon", "ufoLib2"]),
         "scripts": scripts,
         "kerned_scripts": kerned,
+        "foreign": foreign,
         "ufo": {"glyphs": glyphs, "info": {"unitsPerEm": 1000, "familyName": "T", "styleName": "R",
                                            "ascender": 800, "descender": -200},
-                "lib": {}, "features": text, "kerning": kerning, "groups": groups,
+                "lib": ({"public.skipExportGlyphs": skip_export} if skip_export else {}),
+                "features": text, "kerning": kerning, "groups": groups,
                 "glyphOrder": None},
         "rules": rules,
     }
@@ -203,6 +260,9 @@ def run(case):
             counters["default_" + k] = counters.get("default_" + k, 0) + n
 
     bump("cases")
+    if case.get("foreign"):
+        counters["foreign_exported_control" if case["foreign"]["exported"]
+                 else "foreign_skipped_cases"] = 1
     if stratum != "default":
         counters["known_stratum_cases"] = 1
     font = build_ufo(spec, case["lib"])
@@ -320,16 +380,27 @@ def run(case):
 def classify(v, case):
     """The known mechanism: the failing script tag (resp. language system) has no `languagesystem`
     statement in the user's feature text, i.e. it exists in the ScriptList only through the
-    kern/dist writer's explicit `script`/`language` statements.  Anything else -> None."""
+    kern/dist writer's explicit `script`/`language` statements, AND the compiled font really
+    supports that script: it is DFLT, or some exported glyph (not in public.skipExportGlyphs) is
+    encoded with a code point that belongs to that script alone.  A script tag that nothing in
+    the compiled font or the feature text stands for is a different failure -> None."""
     if not v.get("mech", "").startswith("kern_script_lacks_positioning"):
         return None
+    from fontTools import unicodedata as ftud
     d = v["detail"]
     declared = declared_languagesystems(case["ufo"].get("features"))
     tag, lang = d["script"].ljust(4), d["language"].ljust(4)
-    if tag not in declared:
-        return KNOWN_KEY
-    if lang == "dflt" and lang not in declared[tag]:
-        # the script is declared only with non-default languages; not generated, and a different
-        # situation from the listed one -> reported
+    if tag in declared:
+        # declared (possibly only with non-default languages): not the listed situation
         return None
+    if tag == "DFLT":
+        return KNOWN_KEY
+    skipped = set((case["ufo"].get("lib") or {}).get("public.skipExportGlyphs") or [])
+    for g in case["ufo"]["glyphs"]:
+        if g["name"] in skipped:
+            continue
+        for u in g.get("unicodes") or []:
+            scx = set(ftud.script_extension(chr(u)))
+            if len(scx) == 1 and tag in [t.ljust(4) for t in S.ot_script_tags(next(iter(scx)))]:
+                return KNOWN_KEY
     return None
